@@ -39,7 +39,10 @@ CHECKS = {
         text="ConcatSource: each child's own map() and the composite's map() are resolved at every position and compared by value (content "
              "included); columns=false via the first mapped child piece per line. ReplaceSource: the observed inner stream defines the inner "
              "segments; SpliceProv aligns every output byte with an inner byte or a replacement, and TLC checks file/line/name preservation, "
-             "the content-conditioned column advance and replacement names.",
+             "the content-conditioned column advance and replacement names. The implementation-shaped models ConcatM (final-source streaming "
+             "of ConcatSource: offsets, need_to_close, last_mapping_line) and ReplaceM are model-checked by TLC against the same requirement "
+             "(the pre-repair variant of ConcatM is refuted) and the recorded final-mode streams of children and composite are compared "
+             "event by event with what the model emits (reported as MODEL-DRIFT, never as a violation).",
         note=COMMON_NOTE + " Where the recorded content does not equal the skipped text the column may lie anywhere between the segment column and the advanced column (the statement only says when it IS advanced).",
         technique="TLA+ attribution oracle + splice provenance + TLC trace validation",
     ),
